@@ -19,6 +19,7 @@ struct MssmPoint {
    double mq2[3], mu2[3], md2[3], ml2[3], me2[3];
    double pole_scale;   ///< mode 1: factor applied to the example pole masses
    double MW, MZ;
+   double alpha_MZ;     ///< alpha_em(MZ), 0 = the usual value
    double precision; unsigned max_iter;
 };
 
